@@ -1,4 +1,5 @@
 import PestModel.Model.StackDriver
+import PestModel.Model.LineColDriver
 
 open PestModel
 
@@ -13,4 +14,5 @@ def main (args : List String) : IO UInt32 := do
   let stdout ← IO.getStdout
   match args with
   | ["stack"] => loop stdin stdout StackDriver.runLine; return 0
+  | ["linecol"] => loop stdin stdout LineColDriver.runLine; return 0
   | _ => IO.eprintln "usage: pestmodel <mode>"; return 2
